@@ -1410,8 +1410,19 @@ static ASTNode *parse_primary(Stage1Parser *p) {
             int column = tok->column;
             advance(p);  /* consume 'unsafe' */
 
+            /* unsafe { unsafe { ... } } recurses through parse_statement:
+             * count it like a block (see parse_block) */
+            p->recursion_depth++;
+            if (p->recursion_depth > MAX_RECURSION_DEPTH) {
+                parser_error(p, line, column, "Error at line %d, column %d: Block recursion depth exceeded maximum (%d). Possible infinite recursion or extremely nested blocks.\n",
+                        line, column, MAX_RECURSION_DEPTH);
+                p->recursion_depth--;
+                return NULL;
+            }
+
             /* Expect opening brace */
             if (!expect(p, TOKEN_LBRACE, "Expected '{' after 'unsafe'")) {
+                p->recursion_depth--;
                 return NULL;
             }
 
@@ -1435,6 +1446,7 @@ static ASTNode *parse_primary(Stage1Parser *p) {
                 }
             }
 
+            p->recursion_depth--;
             if (!expect(p, TOKEN_RBRACE, "Expected '}' after unsafe block")) {
                 free(statements);
                 return NULL;
@@ -2879,8 +2891,19 @@ static ASTNode *parse_statement(Stage1Parser *p) {
             int column = tok->column;
             advance(p);
 
+            /* unsafe { unsafe { ... } } recurses through parse_statement:
+             * count it like a block (see parse_block) */
+            p->recursion_depth++;
+            if (p->recursion_depth > MAX_RECURSION_DEPTH) {
+                parser_error(p, line, column, "Error at line %d, column %d: Block recursion depth exceeded maximum (%d). Possible infinite recursion or extremely nested blocks.\n",
+                        line, column, MAX_RECURSION_DEPTH);
+                p->recursion_depth--;
+                return NULL;
+            }
+
             /* Expect opening brace */
             if (!expect(p, TOKEN_LBRACE, "Expected '{' after 'unsafe'")) {
+                p->recursion_depth--;
                 return NULL;
             }
 
@@ -2904,6 +2927,7 @@ static ASTNode *parse_statement(Stage1Parser *p) {
                 }
             }
 
+            p->recursion_depth--;
             if (!expect(p, TOKEN_RBRACE, "Expected '}' after unsafe block")) {
                 free(statements);
                 return NULL;
